@@ -137,7 +137,7 @@ def audit_axioms(ctx):
     try:
         pa = vf.parse_print_assumptions(open(p).read())
         for name, ax in zip(ctx.theorems, pa):
-            if (name.startswith("C10_mt_") or name.startswith("C10_i64_")) and ax:
+            if name.startswith(("C10_mt_", "C10_i64_", "C10_mtg_")) and ax:
                 vf.report_violation(
                     ctx, f"proof:C10:{name} is not closed under the global context: {ax}",
                     {"stage": "proof", "theorem_file": "coq/Props/C10.v", "what": f"{name} depends on {ax}"}, nfif=True)
